@@ -114,8 +114,9 @@ fn main() {
                         let typed = optimizer.optimize(typed);
                         stage(idx, "air");
                         {
+                            // the route of AirLowerStage / `compile --emit-air`
                             let mut air = aelys_air::lower::lower(&typed);
-                            aelys_air::layout::compute_layouts(&mut air);
+                            if aelys_air::layout::try_compute_layouts(&mut air).is_err() { return "err:air".into(); }
                             let air = aelys_air::mono::monomorphize(air);
                             let _ = aelys_air::print::print_program(&air);
                         }
